@@ -591,8 +591,54 @@ Definition chess_env (prom_nq : bool) (v : bview) (key : N) (srt : odstate -> li
         (fun m => match is_non_quiet prom_nq v m with Some b => b | None => false end)
         srt.
 
-(* a concrete sort oracle for the examples: PV move first (ValueMax), then killers, as
-   updateSortValues would rank them when no history data is present and generator values tie *)
+(** ** the engine's sort values (movegen.go generators + updateSortValues, no history data)
+
+    Only [od_case_ok] / the examples use them: they make the executable model reproduce the
+    engine's exact hand-out order.  The theorems hold for EVERY sort oracle that permutes. *)
+(* piece.go:108  Piece.ValueOf = pieceTypeValue[p.TypeOf()] *)
+Definition ptv (t : N) : Z := nth (N.to_nat t) c_piece_type_value 0%Z.
+Definition piece_value (pc : N) : Z := ptv (N.land pc 7).
+(* posValues.go:53, 123-129: posValue[p][sq][gp] = (gp * mid[p][sq] + (GamePhaseMax - gp) * end[p][sq]) / GamePhaseMax
+   (Go integer division truncates towards zero); c_psq_mid / c_psq_end are posMidValue / posEndValue *)
+Definition psq_entry (t : list (list Z)) (pc sq : N) : Z := nth (N.to_nat sq) (nth (N.to_nat pc) t []) 0%Z.
+Definition pos_value (pc sq : N) (gp : Z) : Z :=
+  Z.quot (gp * psq_entry c_psq_mid pc sq + (c_game_phase_max - gp) * psq_entry c_psq_end pc sq) c_game_phase_max.
+
+(* position.go:860-863: p.gamePhase of a position set up from a FEN (sum of the piece phase
+   values, clamped).  After DoMove / UndoMove sequences the engine's field can differ (the
+   clamp is applied incrementally): pass the observed p.GamePhase() to [od_case_gp_ok] then. *)
+Definition game_phase_of_board (bd : list N) : Z :=
+  Z.min c_game_phase_max (fold_right (fun pc acc => (nth (N.to_nat (N.land pc 7)) c_game_phase_value 0 + acc)%Z) 0%Z bd).
+
+(* the value a generator attaches to a move (movegen.go:851-858, 867-869, 882, 900-903, 934-946,
+   953, 961, 978-988, 1013, 1027, 1076, 1089) *)
+Definition move_value (prom_nq : bool) (v : bview) (gp : Z) (m : N) : Z :=
+  let f := From m in let t := To m in let ty := MoveType m in let pr := PromotionType m in
+  let pc := nth (N.to_nat f) (vboard v) 0 in
+  let tgt := nth (N.to_nat t) (vboard v) 0 in
+  let minor : Z := if N.eqb pr ROOK || N.eqb pr BISHOP then 2000%Z else 0%Z in
+  if N.eqb ty CASTLING then (-5000)%Z
+  else if N.eqb ty ENPASSANT then pos_value pc t gp
+  else if N.eqb ty PROMOTION then
+    (if negb (N.eqb tgt 0) then (piece_value tgt - 2 * ptv PAWN + ptv pr - minor)%Z
+     else if prom_nq && (N.eqb pr QUEEN || N.eqb pr KNIGHT) then (- ptv PAWN + ptv pr)%Z
+     else (-10000 + ptv pr - minor)%Z)
+  else if negb (N.eqb tgt 0) then (piece_value tgt - piece_value pc + pos_value pc t gp)%Z
+  else (-10000 + pos_value pc t gp)%Z.
+
+(* movegen.go:740-783 updateSortValues with historyData == nil *)
+Definition updated_value (prom_nq : bool) (v : bview) (gp : Z) (st : odstate) (m : N) : Z :=
+  if m =? od_pv st then c_value_max
+  else if m =? snd (od_killers st) then (-4001)%Z
+  else if m =? fst (od_killers st) then (-4000)%Z
+  else move_value prom_nq v gp m.
+
+(* the sort applied by fillOnDemandMoveList: od3 (king captures) is the one stage without
+   updateSortValues; [od_fill_step] calls the oracle with the stage already advanced *)
+Definition chess_sort (prom_nq : bool) (v : bview) (gp : Z) (st : odstate) (l : list N) : list N :=
+  go_sort (if od_stage st =? OD_4 then move_value prom_nq v gp else updated_value prom_nq v gp st) l.
+
+(* a simpler sort oracle: PV move first, then killers *)
 Definition simple_val (st : odstate) (m : N) : Z :=
   if m =? od_pv st then 10000%Z
   else if m =? snd (od_killers st) then (-4001)%Z
@@ -618,21 +664,32 @@ Definition has_legal_case_ok (fen : str) (observed : bool) : bool :=
   | Some p => opt_bool_eqb (has_legal_move_impl (view_of_spec p) (spec_legal_code p)) observed
   | None => false end.
 
-(* on demand drain: the observed sequence must be the model's drain as a multiset; and the
-   model's drain starts with the PV move exactly when the observed one does (the order of
-   the other moves depends on the engine's sort values, which the model abstracts).
-   [pv] = 0: no PV move set; killers as stored *)
+(* on demand drain with the engine's sort values: the observed sequence must be EXACTLY the
+   model's drain.  [pv] = 0: no PV move set; killers as stored; [gp] = p.GamePhase(); no history data *)
+Definition od_case_gp_ok (fen : str) (gp : Z) (mode : N) (evasion prom_nq : bool) (pv k0 k1 : N)
+           (observed : list N) : bool :=
+  match parse fen with
+  | Some p =>
+      let v := view_of_spec p in
+      let env := chess_env prom_nq v 1 (chess_sort prom_nq v gp) in
+      (* ResetOnDemand; SetPvMove(pv); killerMoves = {k0, k1} *)
+      let st := mkod [] OD_NEW 0 (MoveOf pv) false false (k0, k1) 0 0 in
+      match od_drain 600 env mode evasion st with
+      | Some (_, out) => list_eqb out observed
+      | None => false end
+  | None => false end.
+
+(* the same for a position set up from its FEN (game phase recomputed from the board), compared
+   as a multiset plus first move (the interface of the correspondence run) *)
 Definition od_case_ok (fen : str) (mode : N) (evasion prom_nq : bool) (pv k0 k1 : N)
            (observed_first : N) (observed_sorted_codes : list N) : bool :=
   match parse fen with
   | Some p =>
-      let env := chess_env prom_nq (view_of_spec p) 1 simple_sort in
-      (* ResetOnDemand; SetPvMove(pv); killerMoves = {k0, k1} *)
+      let v := view_of_spec p in
+      let env := chess_env prom_nq v 1 (chess_sort prom_nq v (game_phase_of_board (brd p))) in
       let st := mkod [] OD_NEW 0 (MoveOf pv) false false (k0, k1) 0 0 in
       match od_drain 600 env mode evasion st with
       | Some (_, out) => list_eqb (sort out) observed_sorted_codes &&
-                         ((pv =? 0) ||
-                          Bool.eqb (match out with [] => false | m :: _ => m =? MoveOf pv end)
-                                   (observed_first =? MoveOf pv))
+                         (match out with [] => observed_first =? 0 | m :: _ => m =? observed_first end)
       | None => false end
   | None => false end.
